@@ -349,7 +349,7 @@ pub fn run(ctx: &Ctx, rep: &Report) -> Meta {
                and to the other interface of the same suite in every consistent presentation (L = all / 0 / None / L-1, trailing messages as committed, blinding slot filled, combined lists); oracle: Err; \
                (b) generator requests (n <= 64 quick / 512 thorough, api_ids {None, empty, plain, blind, BLIND_-prefixed, random ASCII}, both suites): create(n,a)[..k] = create(k,a) (all k for the exhaustive list, sampled otherwise), \
                no identity, no P1 of either suite, no G1 base point, no repetition, sets of different (suite, api_id) disjoint, None = empty api_id; \
-               non-trivial = a cross pair with (s', i') != (s, i) or a generator request with n >= 2; evaluations = foreign verifications + set judgements"
+               an honest commitment validated through deserialize_and_validate_commit under nine foreign interface identifiers (plain, other suite, empty, custom, padded to 200 / 251 / 252 / 255 / 300 octets); prepare_parameters compared with create(L, a) ++ create(M, BLIND_ || a) for every api_id spelling; generator requests under contention; non-trivial = a cross pair with (s', i') != (s, i) or a generator request with n >= 2; evaluations = foreign verifications + set judgements"
             .into(),
         assumptions: vec!["a refusal by panic of blind_proof_verify on a foreign proof counts as rejection here (C08 reports it)".into()],
     }
